@@ -2,6 +2,7 @@ import ClusterVerif.Spec.C16
 import Mathlib.Tactic.Cases
 import Mathlib.Tactic.SplitIfs
 import Mathlib.Tactic.ByCases
+import Mathlib.Tactic.Tauto
 
 /-! Helper lemmas for Props/C16: one group per request of the conversation. -/
 namespace CV.C16
@@ -244,5 +245,110 @@ theorem swarmOk_zero : ∀ l : List Nat, swarmOk 0 l = true → l = []
     simp only [swarmOk, Bool.and_eq_true] at h
     have := swarmOk_zero (b :: rest) h.2
     simp at this
+
+/-! ### the Bool clauses of the Spec read as propositions -/
+
+theorem cPinSound_iff (i : Input) (o : Output) :
+    cPinSound i o = true ↔ (i.op = .pin → o.res = .ok → o.final i.cid = wanted i.depth) := by
+  simp only [cPinSound, Bool.or_eq_true, Bool.not_eq_true', Bool.and_eq_false_iff, beq_eq_false_iff_ne, beq_iff_eq]
+  tauto
+
+theorem cUnpinSound_iff (i : Input) (o : Output) :
+    cUnpinSound i o = true ↔ (i.op = .unpin → o.res = .ok → held (o.final i.cid) = false) := by
+  simp only [cUnpinSound, Bool.or_eq_true, Bool.not_eq_true', Bool.and_eq_false_iff, beq_eq_false_iff_ne, beq_iff_eq]
+  tauto
+
+theorem cLsTruthful_iff (i : Input) (o : Output) :
+    cLsTruthful i o = true ↔ (i.op = .ls → clsAt false (i.beh 0) = .honest →
+        o.res = .st (if i.table i.cid = wanted i.depth then i.table i.cid else .u)) := by
+  simp only [cLsTruthful, Bool.or_eq_true, Bool.not_eq_true', Bool.and_eq_false_iff, beq_eq_false_iff_ne, beq_iff_eq]
+  tauto
+
+theorem cErrorsReported_iff (i : Input) (o : Output) :
+    cErrorsReported i o = true ↔
+      ((∃ x ∈ (served i o).zipIdx, failure i x.2 x.1.1 x.1.2 = true) → isSuccess o.res = false) := by
+  simp only [cErrorsReported, Bool.or_eq_true, Bool.not_eq_true', List.any_eq_false]
+  constructor
+  · rintro (h | h) ⟨x, hx, hf⟩
+    · exact absurd hf (h x hx)
+    · exact h
+  · intro h
+    by_cases hs : isSuccess o.res = false
+    · exact Or.inr hs
+    · left; intro x hx hf; exact hs (h ⟨x, hx, hf⟩)
+
+theorem cNoRequestWhenAlready_iff (i : Input) (o : Output) :
+    cNoRequestWhenAlready i o = true ↔
+      (i.op = .pin → i.table i.cid = wanted i.depth → clsAt false (i.beh 0) = .honest →
+        o.res = .ok ∧ (∀ r ∈ o.trace, isLsOf i.cid r = true) ∧ o.trace.length ≤ 1 ∧ o.swarm = [] ∧
+          o.final i.cid = i.table i.cid) := by
+  simp only [cNoRequestWhenAlready, Bool.or_eq_true, Bool.not_eq_true', Bool.and_eq_false_iff,
+    beq_eq_false_iff_ne, beq_iff_eq, Bool.and_eq_true, List.all_eq_true, decide_eq_true_eq, List.isEmpty_iff]
+  tauto
+
+theorem cUnpinAbsentOk_iff (i : Input) (o : Output) :
+    cUnpinAbsentOk i o = true ↔
+      (i.op = .unpin → i.unpinDisable = false → held (i.table i.cid) = false →
+        (clsAt false (i.beh 0) = .honest ∨ clsAt false (i.beh 0) = .notPinned) → o.res = .ok) := by
+  simp only [cUnpinAbsentOk, Bool.or_eq_true, Bool.not_eq_true', Bool.and_eq_false_iff,
+    beq_eq_false_iff_ne, beq_iff_eq, Bool.or_eq_false_iff, Bool.not_eq_false']
+  cases i.unpinDisable <;> cases held (i.table i.cid) <;> simp <;> tauto
+
+theorem cStallTimesOut_iff (i : Input) (o : Output) :
+    cStallTimesOut i o = true ↔
+      (i.op = .pin → (∃ x ∈ served i o, isPinning x.1 = true ∧ (x.2 = .stall ∨ x.2 = .noProgress)) →
+        o.res = .err) := by
+  simp only [cStallTimesOut, Bool.or_eq_true, Bool.not_eq_true', Bool.and_eq_false_iff,
+    beq_eq_false_iff_ne, beq_iff_eq, List.any_eq_false, Bool.and_eq_true, Bool.or_eq_true]
+  constructor
+  · rintro (h | h) hop ⟨x, hx, hp⟩
+    · rcases h with h | h
+      · exact absurd hop h
+      · exact absurd hp (h x hx)
+    · exact h
+  · intro h
+    by_cases hop : i.op = .pin
+    · by_cases he : ∃ x ∈ served i o, isPinning x.1 = true ∧ (x.2 = .stall ∨ x.2 = .noProgress)
+      · exact Or.inr (h hop he)
+      · left; right; intro x hx hp; exact he ⟨x, hx, hp⟩
+    · exact Or.inl (Or.inl hop)
+
+theorem cReturns_iff (o : Output) : cReturns o = true ↔ (o.res ≠ .hang ∧ o.res ≠ .panic) := by
+  simp [cReturns]
+
+theorem cUpdateOnlyIfRecursive_iff (i : Input) (o : Output) :
+    cUpdateOnlyIfRecursive i o = true ↔
+      (∀ f t u, Req.upd f t u ∈ o.trace → i.op = .pin ∧ i.src = some f ∧ t = i.cid ∧ i.table f = .r) := by
+  simp only [cUpdateOnlyIfRecursive, List.all_eq_true]
+  constructor
+  · intro h f t u hm
+    simpa [and_assoc] using h _ hm
+  · intro h r hm
+    cases r with
+    | upd f t u => simpa [and_assoc] using h f t u hm
+    | _ => rfl
+
+theorem cUpdateUnpinFalse_iff (o : Output) :
+    cUpdateUnpinFalse o = true ↔ (∀ f t u, Req.upd f t u ∈ o.trace → u = false) := by
+  simp only [cUpdateUnpinFalse, List.all_eq_true]
+  constructor
+  · intro h f t u hm
+    simpa using h _ hm
+  · intro h r hm
+    cases r with
+    | upd f t u => simpa using h f t u hm
+    | _ => rfl
+
+theorem cSourceKept_iff (i : Input) (o : Output) :
+    cSourceKept i o = true ↔
+      (∀ s, i.src = some s → i.op = .pin →
+        (s ≠ i.cid → o.final s = i.table s) ∧ (i.table s = .r → o.final s = .r)) := by
+  unfold cSourceKept
+  cases hsrc : i.src with
+  | none => simp
+  | some s =>
+    simp only [Option.some.injEq, forall_eq', Bool.or_eq_true, Bool.not_eq_true', beq_eq_false_iff_ne,
+      Bool.and_eq_true, beq_iff_eq, ne_eq]
+    tauto
 
 end CV.C16
